@@ -50,6 +50,8 @@ def treedef_of(t):
         return "(TNode [" + ";".join(treedef_of(t[k]) for k in sorted(t)) + "])"
     if isinstance(t, (tuple, list)):
         return "(TNode [" + ";".join(treedef_of(x) for x in t) + "])"
+    if t is None:
+        return "(TNode [])"          # JAX: None is an empty node, not a leaf
     return "TLeaf"
 
 
@@ -58,6 +60,8 @@ def leaves_of(t):
         return [l for k in sorted(t) for l in leaves_of(t[k])]
     if isinstance(t, (tuple, list)):
         return [l for x in t for l in leaves_of(x)]
+    if t is None:
+        return []
     return [np.asarray(t)]
 
 
@@ -291,6 +295,8 @@ def map_functions():
         2: lambda x, y, z: (y + z.sum() - x.sum(), z * (x.sum() * y.sum()), x + y.sum() * z.sum()),
         3: lambda ab, c: ((ab[0] + ab[1].sum(), c.sum()), 2 * c),
         4: lambda x, y: (y.sum(), 3 * y),
+        # outputs with None entries (unset fields as in OptimizeResults): None is no leaf
+        5: lambda x: (None, 2 * x, None, x.sum()),
     }
 
 
@@ -307,8 +313,11 @@ def gen_map_cases(rng, n):
     # the design-round failing input first (also in corpus/C33)
     cases.append({"fn": 0, "B": 3, "leaves": [{"shape": [2], "ax": 0}, {"shape": [2], "ax": None}], "out": [0, None], "in_form": "tuple", "out_form": "tuple"})
     cases.append({"fn": 4, "B": 2, "leaves": [{"shape": [2], "ax": 0}, {"shape": [3], "ax": None}], "out": [None, None], "in_form": "tuple", "out_form": "none"})
+    # single int out_axes with None entries in the output (regression of the first version of the fix)
+    cases.append({"fn": 5, "B": 3, "leaves": [{"shape": [2], "ax": 0}], "out": [0, 0], "in_form": "int", "out_form": "int"})
+    cases.append({"fn": 5, "B": 2, "leaves": [{"shape": [2, 2], "ax": 1}], "out": [0, 0], "in_form": "tuple", "out_form": "int"})
     while len(cases) < n:
-        fid = int(rng.integers(0, 5))
+        fid = int(rng.integers(0, 6))
         B = int(rng.integers(1, 4))
         base = [int(x) for x in rng.integers(1, 4, size=int(rng.integers(0, 3)))]
 
@@ -345,6 +354,12 @@ def gen_map_cases(rng, n):
             if all(l["ax"] is None for l in leaves):
                 leaves[0]["ax"] = 0
             out = [ax(base, False), ax([], leaves[2]["ax"] is None), ax(sc, leaves[2]["ax"] is None)]
+        elif fid == 5:
+            # (a per-leaf out_axes tuple cannot describe an output with None entries in smap:
+            # its None would be read as "un-batched leaf"; only the single-int form is used, as NIFTy does)
+            leaves = [{"shape": base, "ax": ax(base, False)}]
+            cases.append({"fn": 5, "B": B, "leaves": leaves, "out": [0, 0], "in_form": "tuple", "out_form": "int"})
+            continue
         else:
             sy = [int(x) for x in rng.integers(1, 3, size=1)]
             ay = ax(sy)
@@ -379,6 +394,8 @@ def call_map(mapper, case, arrs):
         args = tuple(arrs)
         in_axes = tuple(axs)
         out_axes = tuple(case["out"])
+    if case["fn"] == 5:
+        out_axes = (None, case["out"][0], None, case["out"][1])
     if case["in_form"] == "int":
         in_axes = axs[0]
     if case["out_form"] == "int":
